@@ -17,7 +17,9 @@ CONSTANTS Devs, Tier, Tag
 
 FileFaults == {"missing", "isdir", "dangling", "empty", "truncated", "garbage", "bom", "jsonnull", "jsonarray",
                "jsonstring", "jsonnumber", "typenum", "propsnum", "badyaml"}
-ElemFaults == {"unknowntype", "missingdef", "missingfile", "refhash", "refhashslash", "refdefsempty", "refother",
+\* "unknowntypefmt" / "unknowntypekw": the unknown type name next to keywords that select a Go type or a validator for
+\* KNOWN types (a string format; bounds and a default): the element stays ungeneratable
+ElemFaults == {"unknowntype", "unknowntypefmt", "unknowntypekw", "missingdef", "missingfile", "refhash", "refhashslash", "refdefsempty", "refother",
                "refdefsbare", "refdefinitionsbare", "refuppercase",
                "emptyenum", "nonprimenum", "typednonprimenum", "intenumstr", "multiaddl", "defaultemptykey"}
 Positions  == {"property", "nested", "item", "definition", "allof", "anyof", "allofbranch", "anyofbranch", "reffile"}
@@ -61,7 +63,7 @@ ScenariosDef ==
       l \in {x \in ArgLists : QuickOK(x)}, m \in {"stdout", "file", "perfile"}}
 
 \* deviations of the tree as it is, by name (known_findings.json)
-SilentDef == (IF "SilentBadAllOfBranch" \in Devs THEN {<<"unknowntype", "allofbranch">>, <<"emptyenum", "allofbranch">>} ELSE {})
+SilentDef == (IF "SilentBadAllOfBranch" \in Devs THEN {<<"unknowntype", "allofbranch">>, <<"unknowntypefmt", "allofbranch">>, <<"unknowntypekw", "allofbranch">>, <<"emptyenum", "allofbranch">>} ELSE {})
 PanicsDef == (IF "RefHashPanics" \in Devs THEN {<<"refhash", "property">>, <<"refhash", "nested">>} ELSE {})
              \cup (IF "DefaultEmptyKeyPanics" \in Devs THEN {<<"defaultemptykey", p>> : p \in Positions} ELSE {})
 HangsDef  == {}
